@@ -838,4 +838,206 @@ Proof.
       * intros a Ha. rewrite tag_safe_forall in T1. apply T1. exact Ha.
       * intros a Ha. rewrite tag_safe_forall in T2. apply T2. exact Ha.
 Qed.
+
+(* ---- the threshold shortcut fires only on dicts that already differ ---- *)
+Lemma Forall2_fst_eq (R : value -> value -> Prop) (l l' : list (atom * value)) :
+  Forall2 (fun p q => fst p = fst q /\ R (snd p) (snd q)) l l' -> map fst l = map fst l'.
+Proof. induction 1 as [|p q l l' [Hk _] HF IHF]; cbn [map]; [reflexivity|]. rewrite IHF, Hk. reflexivity. Qed.
+
+Lemma eqv_dict_keys kvs1 kvs2 : eqv o (VDict kvs1) (VDict kvs2) ->
+  (forall k, In k (keys_of c kvs2) -> mem_atom k (keys_of c kvs1) = true) /\
+  (forall k, In k (keys_of c kvs1) -> mem_atom k (keys_of c kvs2) = true).
+Proof.
+  intros He. inversion He as [| | |kvs kvs' Hi| |]; subst.
+  inversion Hi as [l1 l2 l2' Hp HF E1 E2]; subst l1 l2.
+  assert (Hk : Permutation (keys_of c kvs2) (keys_of c kvs1)).
+  { rewrite !keys_vis. eapply perm_trans; [apply Permutation_map, Hp|].
+    rewrite (Forall2_fst_eq _ _ _ HF). apply Permutation_refl. }
+  split; intros k Hin; apply mem_atom_In; exists k; (split; [|apply py_eq_refl]).
+  - eapply Permutation_in; [exact Hk|exact Hin].
+  - eapply Permutation_in; [apply Permutation_sym, Hk|exact Hin].
+Qed.
+
+Theorem shortcut_only_on_different kvs1 kvs2 p1 :
+  dict_shortcut excl c (keys_of c kvs1) (keys_of c kvs2) p1 = true -> ~ eqv o (VDict kvs1) (VDict kvs2).
+Proof.
+  intros Hs He. apply eqv_dict_keys in He as [K21 K12].
+  rewrite (shortcut_same_keys _ _ _ K21 K12) in Hs. discriminate.
+Qed.
+
+(* ---- the result handed to the user ---- *)
+Lemma mutual_nil es : mutual es = [] <-> es = [].
+Proof.
+  split; [|intros ->; reflexivity]. intro Hm.
+  destruct es as [|e es']; [reflexivity|exfalso].
+  unfold mutual in Hm. set (es := e :: es') in *.
+  assert (Hall : forall x, In x es -> ekind x = KIterAdd).
+  { intros x Hx. pose proof (flat_map_nil_inv _ _ x Hm Hx) as Hz. cbn beta in Hz.
+    destruct (ekind x); try discriminate Hz; try reflexivity.
+    destruct (last_with_path (ep1 x) (filter (is_kind KIterAdd) es)); [|discriminate Hz].
+    destruct (last_with_path (ep1 x) (filter (is_kind KIterRem) es)); discriminate Hz. }
+  assert (Hr : filter (is_kind KIterRem) es = []).
+  { apply filter_nil. intros x Hx. unfold is_kind. rewrite (Hall x Hx). reflexivity. }
+  pose proof (flat_map_nil_inv _ _ e Hm (or_introl eq_refl)) as Hz. cbn beta in Hz.
+  rewrite (Hall e (or_introl eq_refl)) in Hz. rewrite Hr in Hz. cbn in Hz. discriminate Hz.
+Qed.
+
+Lemma run_nil t1 t2 :
+  fst (run_diff_io H udiff no_skip excl c rep pairs t1 t2) = [] <-> fst (dio t1 t2 [] []) = [].
+Proof.
+  unfold run_diff_io. destruct (dio t1 t2 [] []) as [es rs]. cbn [fst].
+  destruct rep_cases as [E|E].
+  - rewrite (if_true _ _ _ E). tauto.
+  - rewrite (if_false _ _ _ E). apply mutual_nil.
+Qed.
 End Proofs.
+
+(* ================================================================== *)
+(** * Final forms *)
+From DD Require Import Hash.HashProofsC07.
+
+(* no two atoms of the two inputs that are == in Python but not identical *)
+Definition alias_free2 (t1 t2 : value) : bool := no_alias (atoms_of t1 ++ atoms_of t2).
+
+Lemma no_alias_NA l : no_alias l = true -> NA l.
+Proof.
+  unfold no_alias, NA. rewrite forallb_forall. intros Hn a b Ha Hb He.
+  specialize (Hn a Ha). rewrite forallb_forall in Hn. specialize (Hn b Hb). rewrite He in Hn. cbn in Hn.
+  apply atom_eqb_eq. exact Hn.
+Qed.
+
+Lemma plain_io c rep : plain (io_opts c rep) = true.
+Proof. reflexivity. Qed.
+
+Theorem verdict :
+  forall (H : pystr -> pystr),
+  (forall s, s <> [] -> sepfree (H s)) -> (forall s t, H s = H t -> s = t) ->
+  forall udiff excl c rep pairs t1 t2,
+  thr_num c <= thr_den c ->
+  wf t1 = true -> wf t2 = true -> tag_safe t1 = true -> tag_safe t2 = true -> alias_free2 t1 t2 = true ->
+  (fst (run_diff_io H udiff no_skip excl c rep pairs t1 t2) = [] <-> eqv (io_opts c rep) t1 t2).
+Proof.
+  intros H H_tok H_inj udiff excl c rep pairs t1 t2 Hthr W1 W2 T1 T2 Ha.
+  rewrite run_nil. split.
+  - apply io_sound; auto.
+    + intros a b Wa Wb Ta Tb He. apply (hash_inj H H_tok H_inj (io_opts c rep) (plain_io c rep)); auto; reflexivity.
+    + apply no_alias_NA. exact Ha.
+  - intros He. rewrite io_complete; auto.
+Qed.
+
+(* without the guards on the inputs: equivalent inputs always give the empty result *)
+Theorem equal_gives_empty :
+  forall (H : pystr -> pystr) udiff excl c rep pairs t1 t2,
+  thr_num c <= thr_den c -> wf t2 = true ->
+  eqv (io_opts c rep) t1 t2 -> run_diff_io H udiff no_skip excl c rep pairs t1 t2 = ([], []).
+Proof.
+  intros H udiff excl c rep pairs t1 t2 Hthr W2 He. unfold run_diff_io.
+  rewrite io_complete; auto. destruct rep; reflexivity.
+Qed.
+
+(* the verdict is a function of (rep, t1, t2): any two pairings - i.e. any two settings of
+   cutoff_distance_for_pairs, cutoff_intersection_for_pairs, max_passes, cache_size - agree on it *)
+Theorem knob_independence :
+  forall (H : pystr -> pystr),
+  (forall s, s <> [] -> sepfree (H s)) -> (forall s t, H s = H t -> s = t) ->
+  forall udiff udiff' excl excl' c c' rep pairs pairs' t1 t2,
+  thr_num c <= thr_den c -> thr_num c' <= thr_den c' ->
+  DiffModel.ignore_private c = DiffModel.ignore_private c' ->
+  wf t1 = true -> wf t2 = true -> tag_safe t1 = true -> tag_safe t2 = true -> alias_free2 t1 t2 = true ->
+  (fst (run_diff_io H udiff no_skip excl c rep pairs t1 t2) = [] <->
+   fst (run_diff_io H udiff' no_skip excl' c' rep pairs' t1 t2) = []).
+Proof.
+  intros H H_tok H_inj udiff udiff' excl excl' c c' rep pairs pairs' t1 t2 Hthr Hthr' Hip W1 W2 T1 T2 Ha.
+  rewrite (verdict H H_tok H_inj udiff excl c rep pairs t1 t2); auto.
+  rewrite (verdict H H_tok H_inj udiff' excl' c' rep pairs' t1 t2); auto.
+  unfold io_opts. rewrite Hip. tauto.
+Qed.
+
+(* "a pairing can never turn different into equal": items that hash differently never diff to
+   nothing, whatever the pairing oracle answers anywhere below them *)
+Theorem different_hash_nonempty :
+  forall (H : pystr -> pystr),
+  (forall s, s <> [] -> sepfree (H s)) -> (forall s t, H s = H t -> s = t) ->
+  forall udiff excl c rep pairs t1 t2 p1 p2,
+  wf t1 = true -> wf t2 = true -> tag_safe t1 = true -> tag_safe t2 = true -> alias_free2 t1 t2 = true ->
+  hash_pure H (io_opts c rep) t1 <> hash_pure H (io_opts c rep) t2 ->
+  fst (diff_io H udiff no_skip excl c rep pairs t1 t2 p1 p2) <> [].
+Proof.
+  intros H H_tok H_inj udiff excl c rep pairs t1 t2 p1 p2 W1 W2 T1 T2 Ha Hne Hn. apply Hne.
+  apply eqv_hash; [reflexivity|].
+  eapply io_sound; eauto.
+  - intros a b Wa Wb Ta Tb He. apply (hash_inj H H_tok H_inj (io_opts c rep) (plain_io c rep)); auto; reflexivity.
+  - apply no_alias_NA. exact Ha.
+Qed.
+
+(* ---- the guards cannot be dropped ---- *)
+From Coq Require Import String.
+Definition cfg_default : cfg := mkCfg false 33 100 true.
+
+(* K1: a str spelling the serialisation of another value (tag_safe fails) *)
+Theorem tag_refuted :
+  forall (H : pystr -> pystr) udiff excl rep pairs,
+  let t1 := VList [VAtom ANone] in
+  let t2 := VList [VAtom (AStr (s2p "NONE"%string))] in
+  wf t1 = true /\ wf t2 = true /\ alias_free2 t1 t2 = true /\
+  run_diff_io H udiff no_skip excl cfg_default rep pairs t1 t2 = ([], []) /\
+  ~ eqv (io_opts cfg_default rep) t1 t2.
+Proof.
+  intros H udiff excl rep pairs t1 t2. split; [reflexivity|]. split; [reflexivity|]. split; [reflexivity|]. split.
+  - unfold run_diff_io, t1, t2. rewrite dio_list.
+    assert (Eh : h1 H cfg_default rep [VAtom ANone] = h2 H cfg_default rep [VAtom (AStr (s2p "NONE"%string))]) by reflexivity.
+    rewrite iter_empty.
+    + destruct rep; reflexivity.
+    + apply added_nil. rewrite Eh. auto.
+    + apply removed_nil. rewrite Eh. auto.
+    + intros _ h. rewrite Eh. reflexivity.
+  - intro He. inversion He as [|xs ys Hs| | | |]; subst.
+    assert (Hx : exists y, In y [VAtom (AStr (s2p "NONE"%string))] /\ eqv (io_opts cfg_default rep) (VAtom ANone) y).
+    { inversion Hs as [xs ys Hir Hio Hx Hy|xs ys ys' Hir Hio Hp HF|xs ys Hio HF]; subst.
+      - apply Hx. left; reflexivity.
+      - inversion HF as [|x y l l' Hxy HF']; subst. exists y. split; auto.
+        eapply Permutation_in; [apply Permutation_sym; eassumption|left; reflexivity].
+      - discriminate. }
+    destruct Hx as [y [[<-|[]] Hy]]. inversion Hy.
+Qed.
+
+(* K2 (the part the model has): dict keys are matched by ==, 1 and 1.0 are one key *)
+Theorem alias_refuted :
+  forall (H : pystr -> pystr) udiff rep pairs,
+  let t1 := VDict [(AInt 1, VAtom (AStr (s2p "a"%string)))] in
+  let t2 := VDict [(AHalf 2, VAtom (AStr (s2p "a"%string)))] in
+  wf t1 = true /\ wf t2 = true /\ tag_safe t1 = true /\ tag_safe t2 = true /\
+  run_diff_io H udiff no_skip no_skip cfg_default rep pairs t1 t2 = ([], []) /\
+  ~ eqv (io_opts cfg_default rep) t1 t2.
+Proof.
+  intros H udiff rep pairs t1 t2. repeat (split; [reflexivity|]). split.
+  - destruct rep; reflexivity.
+  - intro He. inversion He as [| | |kvs kvs' Hi| |]; subst.
+    inversion Hi as [l1 l2 l2' Hp HF E1 E2]; subst.
+    cbn in Hp. apply Permutation_length_1_inv in Hp. subst l2'.
+    cbn in HF. inversion HF as [|x y l l' [Hk _] HF']; subst. cbn in Hk. discriminate.
+Qed.
+
+(* threshold_to_diff_deeper above 1 reports equal dicts as changed *)
+Theorem threshold_above_one_refuted :
+  forall (H : pystr -> pystr) udiff rep pairs,
+  let t := VDict [(AStr (s2p "a"%string), VAtom (AInt 1)); (AStr (s2p "b"%string), VAtom (AInt 2))] in
+  let c := mkCfg false 2 1 true in
+  eqv (io_opts c rep) t t /\ fst (run_diff_io H udiff no_skip no_skip c rep pairs t t) <> [].
+Proof.
+  intros H udiff rep pairs t c. split; [apply eqv_refl|]. destruct rep; cbn; discriminate.
+Qed.
+
+(* the guards are satisfiable by a non-trivial pair, equal as nested sets but not as lists *)
+Definition ex_t1 : value :=
+  VList [VDict [(AStr (s2p "k"%string), VList [VAtom (AInt 1); VAtom (AInt 2); VAtom (AInt 2)]); (AInt 7, VSet [ANone; AStr (s2p "x y"%string)])];
+         VTuple [VAtom (AHalf 3); VAtom (ABool false)]; VAtom (ABytes (s2p "a"%string))].
+Definition ex_t2 : value :=
+  VList [VAtom (ABytes (s2p "a"%string)); VTuple [VAtom (ABool false); VAtom (AHalf 3)];
+         VDict [(AInt 7, VSet [AStr (s2p "x y"%string); ANone]); (AStr (s2p "k"%string), VList [VAtom (AInt 2); VAtom (AInt 1)])];
+         VTuple [VAtom (AHalf 3); VAtom (ABool false); VAtom (ABool false)]].
+Example guards_satisfiable :
+  wf ex_t1 = true /\ wf ex_t2 = true /\ tag_safe ex_t1 = true /\ tag_safe ex_t2 = true /\ alias_free2 ex_t1 ex_t2 = true /\
+  fst (run_diff_io hexhash (fun _ _ => []) no_skip no_skip cfg_default false (fun _ => []) ex_t1 ex_t2) = [] /\
+  fst (run_diff_io hexhash (fun _ _ => []) no_skip no_skip cfg_default true (fun _ => []) ex_t1 ex_t2) <> [].
+Proof. repeat (split; [vm_compute; reflexivity|]). vm_compute. discriminate. Qed.
